@@ -76,6 +76,9 @@ func runPolicy(in policyIn) (out map[string]any) {
 type depfilterIn struct {
 	Strategy int `json:"strategy"`
 	Dry      int `json:"dry"`
+	// how the related objects' ids differ from each other: 0 by name; 1 by API group only; 2 by kind only; 3 by namespace only;
+	// 4 by name, one of them sharing everything but the group with the filtered object itself (records are kept per full id)
+	Twin int `json:"twin,omitempty"`
 	Rels     []struct {
 		Invalid bool  `json:"invalid"`
 		Rec     []int `json:"rec"`
@@ -93,7 +96,20 @@ func runDepfilter(in depfilterIn) (out map[string]any) {
 	g := graph.New()
 	g.AddVertex(a)
 	for i, r := range in.Rels {
-		b := fromJid(jid{"ns1", fmt.Sprintf("b%d", i), "", "ConfigMap"})
+		bj := jid{"ns1", fmt.Sprintf("b%d", i), "", "ConfigMap"}
+		switch in.Twin {
+		case 1:
+			bj = jid{"ns1", "b", []string{"", "x.io", "y.io"}[i%3], "ConfigMap"}
+		case 2:
+			bj = jid{"ns1", "b", "", []string{"ConfigMap", "Secret", "Service"}[i%3]}
+		case 3:
+			bj = jid{[]string{"ns1", "ns2", "ns3"}[i%3], "b", "", "ConfigMap"}
+		case 4:
+			if i == 0 {
+				bj = jid{"ns1", "a", "x.io", "ConfigMap"}
+			}
+		}
+		b := fromJid(bj)
 		if in.Strategy == 0 {
 			g.AddEdge(a, b) // a depends on b
 		} else {
@@ -194,7 +210,7 @@ func init() {
 							if tier != "thorough" && (i*7+k)%5 != 0 {
 								continue
 							}
-							in := depfilterIn{Strategy: strat, Dry: dry}
+							in := depfilterIn{Strategy: strat, Dry: dry, Twin: (i + k) % 5}
 							in.Rels = append(in.Rels, r1, r2)
 							out.Emit("depfilter", in, runDepfilter(in))
 						}
